@@ -1,4 +1,7 @@
 #ifndef DNSREC_ABS_H
 #define DNSREC_ABS_H
 ares_dns_record_t *vp_absrec_new(unsigned short id);
+void vp_absrec_set_question(ares_dns_record_t *r, const char *name, int qtype, int qclass);
+void vp_absrec_set_ancount(ares_dns_record_t *r, size_t n);
+extern int vp_absrec_setname_may_fail, vp_absrec_dup_may_fail;
 #endif
